@@ -724,13 +724,15 @@ func ruleDaemonLog(r *Run) {
 	if typVal != nil && sv != nil {
 		// find the converted typ value compared with systemerr
 		var tag ssa.Value
-		allInstrs(pn, func(in ssa.Instruction) {
-			if b, ok := in.(*ssa.BinOp); ok && b.Op == token.EQL {
-				if c, ok := constOf(b.Y); ok && c.Kind() == constant.Int && intOf(c) == intOf(sv) && (stripConv(b.X) == typVal || typeKey(b.X.Type()) == "stdType") {
-					tag = b.X
+		for _, gf := range funcGroup(pn) {
+			allInstrs(gf, func(in ssa.Instruction) {
+				if b, ok := in.(*ssa.BinOp); ok && b.Op == token.EQL {
+					if c, ok := constOf(b.Y); ok && c.Kind() == constant.Int && intOf(c) == intOf(sv) && (stripConv(b.X) == typVal || typeKey(b.X.Type()) == "stdType") {
+						tag = b.X
+					}
 				}
-			}
-		})
+			})
+		}
 		if tag == nil {
 			os.Fail(r.pos(pn.Pos()), "the stream type is never compared with systemerr")
 		} else {
